@@ -325,6 +325,10 @@ def execute_history(case, want):
         prog = case["prog"]
         if any(c.get("back") for n in prog["nodes"] for c in n["calls"]):
             bump("programs_with_mutual_recursion")
+        if any(c["form"] == "declared" for n in prog["nodes"] for c in n["calls"]):
+            bump("programs_with_declared_dependencies")
+        if any(n.get("lam") for n in prog["nodes"]):
+            bump("programs_with_lambda_helpers")
         steps = list(enumerate(case["steps"]))
         # split into lifetimes
         lives = [[]]
